@@ -11,6 +11,7 @@ import (
 	"sort"
 	"strings"
 	"sync"
+	"sync/atomic"
 	"testing/synctest"
 	"time"
 
@@ -80,8 +81,16 @@ type Kernel struct {
 	// Observer, when set, is told about every release (used by oracles that watch hook points).
 	Observer func(role, point string, now time.Duration)
 	// Hold lets a property delay a goroutine at a point: return true to keep it parked for now.
-	Hold  func(g *Gor, parked []*Gor, now time.Duration) bool
-	Holds int
+	Hold func(g *Gor, parked []*Gor, now time.Duration) bool
+	// HoldFn is the sched-hold fault: after the goroutine was released at (role base, point) it
+	// is descheduled for the returned fake duration (0 = no hold) and then parks again.
+	HoldFn    func(base, point string) time.Duration
+	Holds     int
+	MaxHolds  int
+	HoldTotal time.Duration
+	// Free is mode R: hooks return immediately (no controller); used under the race detector.
+	Free  bool
+	freeN atomic.Uint64
 }
 
 // New creates a kernel and installs the hooks. Must be called inside the bubble.
@@ -160,7 +169,12 @@ func (k *Kernel) self(create bool, base string) *Gor {
 }
 
 // Enter names the calling goroutine.
-func (k *Kernel) Enter(role string) { k.self(true, role) }
+func (k *Kernel) Enter(role string) {
+	if k.Free {
+		return
+	}
+	k.self(true, role)
+}
 
 // Yield parks the calling goroutine until the controller releases it.
 func (k *Kernel) Yield(point string) { k.park(point, nil) }
@@ -168,7 +182,7 @@ func (k *Kernel) Yield(point string) { k.park(point, nil) }
 // Poll is Yield plus one fake poll quantum, for loops without a blocking call.
 func (k *Kernel) Poll(point string) {
 	k.park(point, nil)
-	if !k.isDead() {
+	if k.Free || !k.isDead() {
 		time.Sleep(k.PollQ)
 	}
 }
@@ -178,6 +192,9 @@ func (k *Kernel) Acquire(id interface{}, name string) { k.park("lock:"+name, id)
 
 // Release frees the controller's model of lock id.
 func (k *Kernel) Release(id interface{}, _ string) {
+	if k.Free {
+		return
+	}
 	k.mu.Lock()
 	delete(k.locks, id)
 	k.mu.Unlock()
@@ -191,6 +208,15 @@ func (k *Kernel) isDead() bool {
 }
 
 func (k *Kernel) park(point string, want interface{}) {
+	if k.Free {
+		if k.freeN.Add(1)%7 == 0 {
+			runtime.Gosched()
+		}
+
+		return
+	}
+	held := false
+again:
 	g := k.self(true, "")
 	k.mu.Lock()
 	if k.dead {
@@ -221,6 +247,18 @@ func (k *Kernel) park(point string, want interface{}) {
 	if dead {
 		runtime.Goexit()
 	}
+	if k.HoldFn != nil && want == nil && !held && (k.MaxHolds == 0 || k.Holds < k.MaxHolds) {
+		if d := k.HoldFn(g.Base, point); d > 0 {
+			held = true
+			k.mu.Lock()
+			k.Holds++
+			k.HoldTotal += d
+			k.mu.Unlock()
+			time.Sleep(d)
+
+			goto again
+		}
+	}
 }
 
 func mix(h uint64, s string) uint64 {
@@ -246,6 +284,9 @@ func mixInt(h uint64, v int64) uint64 {
 // Event folds a harness-level observation (transport read/write, oracle observation) into the
 // trace digest. Must only be called from a goroutine in its released window.
 func (k *Kernel) Event(kind string, v int64) {
+	if k.Free {
+		return
+	}
 	k.mu.Lock()
 	k.th = mixInt(mix(k.th, kind), v)
 	k.th = mixInt(k.th, int64(k.Now()))
@@ -257,6 +298,20 @@ func (k *Kernel) Event(kind string, v int64) {
 // workload counts as hung; settle is the fake time the system keeps running after done.
 func (k *Kernel) Run(done <-chan struct{}, deadline, settle time.Duration) Outcome {
 	var out Outcome
+	if k.Free {
+		t := time.NewTimer(deadline)
+		select {
+		case <-done:
+			time.Sleep(settle)
+		case <-t.C:
+			out.Hang = true
+			out.HangDump = LibraryStacks(true)
+		}
+		t.Stop()
+		out.End = k.Now()
+
+		return out
+	}
 	finished := false
 	var settleUntil time.Duration
 	lastAdvance := k.Now()
